@@ -1,19 +1,45 @@
+/-
+  C09 — nudged elastic band: fixed ends, in-box images, exact candidates, nudged force,
+  no residue.  Property theorems about `Model/Neb.lean` (helpers in `Lemmas/Neb.lean`), over
+  every ordered field `α` (so over ℚ — every binary64 value — and ℝ), every dimension, every
+  surface (the potential's answers are arbitrary inputs), every `sqrt` meeting its contract.
+
+  Reading of the statement (DESIGN.md §4.0): `max_images ≥ 10`; straight-line interpolation for
+  the end-point clause.  The spring-direction clause is FALSE of the code as written
+  (DESIGN.md §6 row 12, known finding): `C09_spring_restoring_partial` states what does hold
+  (row = coefficient · tangent, |coefficient| = k·|d_prev − d_next|, direction by the sign literal
+  read from the source), `C09_spring_sign_as_coded` / `C09_spring_not_restoring_as_coded` prove
+  that the coded sign is the wrong one (for all inputs / on the 4-image witness), and
+  `C09_spring_restoring_of_repaired_sign` proves the clause for the repaired literal.
+-/
 import TopSearch.Lemmas.Neb
 import TopSearch.Gen.Neb
 import Mathlib.Data.List.Range
+import Mathlib.Tactic.NormNum
 
 set_option linter.unusedSectionVars false
 set_option linter.unusedSimpArgs false
+set_option linter.unusedTactic false
+set_option linter.unreachableTactic false
+set_option linter.unnecessarySeqFocus false
+
 namespace TopSearch.Props.C09
 open TopSearch TopSearch.Neb
 variable {α : Type} [Field α] [LinearOrder α] [IsStrictOrderedRing α]
 
-theorem C09_bridge_clamp (m r : Int) :
+/-- Bridge (tie #1): the clamp read from the current `linear_interpolation` and
+    `dihedral_interpolation` (`< 10`, `= 10`, `> self.max_images`) is the modelled clamp for all
+    inputs of the property's domain (`10 ≤ max_images`), and the raw count is `int(self.image_density*dist)`.  A semantically equal rewrite
+    (`<= 10`) still proves; a changed constant or operator does not. -/
+theorem C09_bridge_clamp (m r : Int) (hm : 10 ≤ m) :
     Gen.Neb.clampLinear m r = clamp m r ∧ Gen.Neb.clampDihedral m r = clamp m r ∧
     Gen.Neb.rawCountIsIntDensityDist = true := by
   refine ⟨?_, ?_, by decide⟩ <;>
     simp only [Gen.Neb.clampLinear, Gen.Neb.clampDihedral, clamp] <;> split_ifs <;> omega
 
+/-- Bridge: `update_image_density` multiplies the original density by `1.5` and `attempts`;
+    `revert_image_density` restores the original; in `initial_interpolation` the update happens
+    before and the revert after the interpolation, both under the guard `attempts > 0`. -/
 theorem C09_bridge_retry :
     (Gen.Neb.retryNum = 3 ∧ Gen.Neb.retryDen = 2 ∧ Gen.Neb.retryOrigPow = 1 ∧
       Gen.Neb.retryAttemptsPow = 1) ∧
@@ -22,6 +48,8 @@ theorem C09_bridge_retry :
   refine ⟨by decide, by decide, by decide, fun a => ⟨?_, ?_⟩⟩ <;>
     simp only [Gen.Neb.updateGuard, Gen.Neb.revertGuard, retryGuard] <;> rw [decide_eq_decide] <;> omega
 
+/-- Bridge: `find_ts_candidates` scans `range(1, n_images-1)` with the test
+    `e[i] >= e[i+1] and e[i] >= e[i-1]` (read from the source, for every ordered field). -/
 theorem C09_bridge_candidates :
     Gen.Neb.candLo = 1 ∧ Gen.Neb.candOff = 1 ∧
     ∀ (a b c : α), Gen.Neb.candTest a b c = true ↔ (b ≥ a ∧ b ≥ c) := by
@@ -29,6 +57,10 @@ theorem C09_bridge_candidates :
   simp only [Gen.Neb.candTest, Bool.and_eq_true, Bool.or_eq_true, decide_eq_true_eq, ge_iff_le,
     gt_iff_lt] <;> tauto
 
+/-- Bridge: the case analysis of `find_tangent_differences` as read from the source: literal
+    `-1.0` in front of `np.diff(band)`, loop `range(1, n_images-1)`, thresholds `>= 1`, `<= -1`,
+    `== 0` of the if/elif chain (compared on the reachable sums −2..2), the neighbour difference
+    selected in each case, the extremum test and its `v_max`/`v_min` weights. -/
 theorem C09_bridge_tangent :
     Gen.Neb.posDiffCoef = -1 ∧ Gen.Neb.tanLo = 1 ∧ Gen.Neb.tanOff = 1 ∧
     (∀ s : Int, -2 ≤ s → s ≤ 2 →
@@ -46,26 +78,532 @@ theorem C09_bridge_tangent :
   · simp only [Gen.Neb.tanExtTest, Bool.and_eq_true, Bool.or_eq_true, decide_eq_true_eq, ge_iff_le,
       gt_iff_lt] <;> tauto
 
+/-- Bridge: `perpendicular_component` cuts off with a strict `<` at a constant in (0, 1) (so a
+    unit tangent is never cut and a zero tangent always is). -/
 theorem C09_bridge_perp_cut :
     Gen.Neb.cutIsStrictLess = true ∧ 0 < Gen.Neb.cutNum ∧ Gen.Neb.cutNum < Gen.Neb.cutDen := by
   refine ⟨by decide, by decide, by decide⟩
 
+/-- Bridge: `band_gradient` starts as zeros and is written only inside
+    `for i in range(1, n_images-1)` at row `i`; the spring rows are `g_parallel[1:-1, :]`. -/
 theorem C09_bridge_end_rows :
     Gen.Neb.asmLo = 1 ∧ Gen.Neb.asmOff = 1 ∧ Gen.Neb.bandGradientZeroInit = true ∧
     Gen.Neb.bandGradientOnlyLoopWrites = true ∧ Gen.Neb.springSliceInterior = true := by
   decide
 
+/-- Bridge: the literals in front of `np.diff(distances)`, `np.diff(band)` are signs; the tangent
+    literal is `-1` (the model's convention).  The spring literal may be either sign: the theorems
+    below cover both (`-1` is the code as written — the known finding; `+1` is the repair). -/
 theorem C09_bridge_spring_literals :
     (Gen.Neb.springCoef = -1 ∨ Gen.Neb.springCoef = 1) ∧ Gen.Neb.posDiffCoef = -1 ∧
     (Gen.Neb.diffCoef = -1 ∨ Gen.Neb.diffCoef = 1) := by
   decide
 
+/-- For every raw count (every density, distance and retry count) the clamped number of images
+    lies between 10 and `max_images`, provided `10 ≤ max_images` — for the model and for the
+    kernels regenerated from the source (linear and dihedral interpolation). -/
 theorem C09_image_count (maxImages raw : Int) (h : 10 ≤ maxImages) :
     10 ≤ clamp maxImages raw ∧ clamp maxImages raw ≤ maxImages ∧
     10 ≤ Gen.Neb.clampLinear maxImages raw ∧ Gen.Neb.clampLinear maxImages raw ≤ maxImages ∧
     10 ≤ Gen.Neb.clampDihedral maxImages raw ∧ Gen.Neb.clampDihedral maxImages raw ≤ maxImages := by
-  rw [(C09_bridge_clamp maxImages raw).1, (C09_bridge_clamp maxImages raw).2.1]
+  rw [(C09_bridge_clamp maxImages raw h).1, (C09_bridge_clamp maxImages raw h).2.1]
   simp only [clamp]
   split_ifs <;> omega
+
+theorem linInterp_length (x1 x2 : List α) (n : Nat) : (linInterp x1 x2 n).length = n := by
+  simp [linInterp]
+
+theorem linInterp_getElem? (x1 x2 : List α) (n i : Nat) (hi : i < n) :
+    (linInterp x1 x2 n)[i]? =
+      some (List.zipWith (fun a b => a + (b - a) / (((n - 1 : Nat)) : α) * ((i : Nat) : α)) x1 x2) := by
+  simp [linInterp, hi, interp_row]
+
+/-- Straight-line interpolation has `n` images, begins at `x₁` and ends at `x₂` (exact
+    arithmetic; `n ≥ 2`, and `n ≥ 10` always holds by `C09_image_count`). -/
+theorem C09_endpoints (x1 x2 : List α) (n : Nat) (hn : 2 ≤ n) (hl : x1.length = x2.length) :
+    (linInterp x1 x2 n).length = n ∧ (linInterp x1 x2 n)[0]? = some x1 ∧
+    (linInterp x1 x2 n)[n - 1]? = some x2 := by
+  refine ⟨linInterp_length _ _ _, ?_, ?_⟩
+  · rw [linInterp_getElem? x1 x2 n 0 (by omega)]
+    congr 1
+    exact zipWith_left_of_length _ (by intro a b; simp) x1 x2 hl
+  · rw [linInterp_getElem? x1 x2 n (n - 1) (by omega)]
+    congr 1
+    have hc : (((n - 1 : Nat)) : α) ≠ 0 := by
+      have : (n - 1 : Nat) ≠ 0 := by omega
+      exact_mod_cast this
+    exact zipWith_right_of_length _ (by intro a b; field_simp; ring) x1 x2 hl
+
+/-- Convexity: every image of the straight-line interpolation lies in the box when both ends do —
+    any dimension, any box. -/
+theorem C09_interp_in_box (box : List (α × α)) (x1 x2 : List α) (n : Nat) (hn : 2 ≤ n)
+    (h1 : InBox box x1) (h2 : InBox box x2) : ∀ row ∈ linInterp x1 x2 n, InBox box row := by
+  intro row hrow
+  simp only [linInterp, List.mem_map, List.mem_range] at hrow
+  obtain ⟨i, hi, rfl⟩ := hrow
+  rw [interp_row]
+  have hc : (0 : α) < (((n - 1 : Nat)) : α) := by
+    have : 0 < (n - 1 : Nat) := by omega
+    exact_mod_cast this
+  have ht : ((i : Nat) : α) ≤ (((n - 1 : Nat)) : α) := by
+    have : i ≤ n - 1 := by omega
+    exact_mod_cast this
+  exact inBox_zipWith _ box
+    (fun b u v hu hv => convex_coord b.1 b.2 u v _ _ hc (Nat.cast_nonneg i) ht hu hv) x1 x2 h1 h2
+
+/-- non-vacuity of `C09_interp_in_box` / `C09_endpoints`: a 2-D pair in a box, 10 images -/
+example : InBox [((-3 : ℚ), 3), (-2, 2)] [-1, 1] ∧ InBox [((-3 : ℚ), 3), (-2, 2)] [2, -2] := by
+  constructor <;> (unfold InBox; repeat (first | exact List.Forall₂.nil | refine List.Forall₂.cons (by norm_num) ?_))
+
+section gradient
+variable (c1 : Int) (sqrt : α → α) (cut : α) (n : Nat) (ks : List α) (band : List (List α))
+  (fg : List (α × List α))
+
+theorem bandGradient_length : (bandGradient c1 sqrt cut n ks band fg).2.length = n := by
+  simp [bandGradient]
+
+/-- The first and the last row of the band gradient are zero vectors (of the band's dimension),
+    for every band, every surface (`fg` are the potential's answers), every force constants. -/
+theorem C09_end_gradient_zero (hn : 1 ≤ n) :
+    (bandGradient c1 sqrt cut n ks band fg).2[0]? = some (zeros (band.getD 0 []).length) ∧
+    (bandGradient c1 sqrt cut n ks band fg).2[n - 1]? = some (zeros (band.getD 0 []).length) := by
+  constructor
+  · simp [bandGradient, show 0 < n by omega]
+  · simp [bandGradient, show n - 1 < n by omega]
+
+/-- interior rows: spring row plus the perpendicular part of the *true* gradient of that image -/
+theorem interior_row (i : Nat) (h1 : 1 ≤ i) (h2 : i + 1 < n) :
+    (bandGradient c1 sqrt cut n ks band fg).2[i]? =
+      some (vadd ((springRows c1 (distances sqrt band) ks
+                    (tangents sqrt n band (fg.map (·.1)))).getD (i - 1) [])
+                 (perp cut ((fg.map (·.2)).getD i [])
+                    ((tangents sqrt n band (fg.map (·.1))).getD (i - 1) []))) := by
+  have hi : i < n := by omega
+  have hi' : i < n - 1 := by omega
+  have hz : (zeroEnds (band.getD 0 []).length n (fg.map (·.2))).getD i [] = (fg.map (·.2)).getD i [] := by
+    simp only [zeroEnds, List.getD_eq_getElem?_getD]
+    rw [List.getElem?_set_ne (by omega), List.getElem?_set_ne (by omega)]
+  simp only [bandGradient, List.getElem?_map, List.getElem?_range hi, Option.map_some, hz]
+  simp [h1, hi']
+
+end gradient
+
+/-- The part of the L-BFGS-B contract (`LBFGSB`, DESIGN.md §2.3) used by C09, for an objective
+    whose gradient rows are `G band`, started at `x0` under the per-image box `box`, with result
+    `xs`: the result has the shape of the start, every image of the result lies in the box, and an
+    image whose gradient row is identically zero (for every band of that shape) and that starts
+    inside the box does not move. -/
+structure LBFGSB (G : List (List α) → List (List α)) (box : List (α × α))
+    (x0 xs : List (List α)) : Prop where
+  shape : xs.length = x0.length
+  inBox : ∀ row ∈ xs, InBox box row
+  zeroGradFixed : ∀ i : Nat, (∀ b : List (List α), b.length = x0.length →
+      ∃ r, (G b)[i]? = some r ∧ ∀ v ∈ r, v = 0) →
+      (∀ r, x0[i]? = some r → InBox box r) → xs[i]? = x0[i]?
+
+/-- non-vacuity of the contract: the optimiser that returns its start satisfies it when the
+    start lies in the box -/
+example (G : List (List α) → List (List α)) (box : List (α × α)) (x0 : List (List α))
+    (h : ∀ row ∈ x0, InBox box row) : LBFGSB G box x0 x0 :=
+  ⟨rfl, h, fun _ _ _ => rfl⟩
+
+/-- Under the `LBFGSB` contract the optimisation of the band does not move the end images: their
+    gradient rows are identically zero (`C09_end_gradient_zero`) — for every surface `fgOf`. -/
+theorem C09_ends_fixed_of_LBFGSB (c1 : Int) (sqrt : α → α) (cut : α) (n : Nat) (ks : List α)
+    (fgOf : List α → α × List α) (box : List (α × α)) (x0 xs : List (List α)) (hn : 1 ≤ n)
+    (hL : LBFGSB (fun b => (bandGradient c1 sqrt cut n ks b (b.map fgOf)).2) box x0 xs)
+    (h0 : ∀ r, x0[0]? = some r → InBox box r) (h1 : ∀ r, x0[n - 1]? = some r → InBox box r) :
+    xs[0]? = x0[0]? ∧ xs[n - 1]? = x0[n - 1]? := by
+  constructor
+  · exact hL.zeroGradFixed 0 (fun b _ => ⟨_, (C09_end_gradient_zero c1 sqrt cut n ks b _ hn).1,
+      by simp [zeros]⟩) h0
+  · exact hL.zeroGradFixed (n - 1) (fun b _ => ⟨_, (C09_end_gradient_zero c1 sqrt cut n ks b _ hn).2,
+      by simp [zeros]⟩) h1
+
+/-- End to end for straight-line interpolation between two points of the box, under the `LBFGSB`
+    contract: every image is in the box before and after the optimisation, and the optimised band
+    still begins at `x₁` and ends at `x₂`. -/
+theorem C09_in_box_of_LBFGSB (c1 : Int) (sqrt : α → α) (cut : α) (n : Nat) (ks : List α)
+    (fgOf : List α → α × List α) (box : List (α × α)) (x1 x2 : List α) (xs : List (List α))
+    (hn : 2 ≤ n) (h1 : InBox box x1) (h2 : InBox box x2)
+    (hL : LBFGSB (fun b => (bandGradient c1 sqrt cut n ks b (b.map fgOf)).2) box
+      (linInterp x1 x2 n) xs) :
+    (∀ row ∈ linInterp x1 x2 n, InBox box row) ∧ (∀ row ∈ xs, InBox box row) ∧
+    xs.length = n ∧ xs[0]? = some x1 ∧ xs[n - 1]? = some x2 := by
+  have hl : x1.length = x2.length := (List.Forall₂.length_eq h1).symm.trans (List.Forall₂.length_eq h2)
+  obtain ⟨e0, e1, e2⟩ := C09_endpoints x1 x2 n hn hl
+  have hf := C09_ends_fixed_of_LBFGSB c1 sqrt cut n ks fgOf box _ xs (by omega) hL
+    (fun r hr => by rw [e1] at hr; cases hr; exact h1) (fun r hr => by rw [e2] at hr; cases hr; exact h2)
+  exact ⟨C09_interp_in_box box x1 x2 n hn h1 h2, hL.inBox, hL.shape.trans e0, hf.1.trans e1,
+    hf.2.trans e2⟩
+
+/-- `i` is returned as a candidate iff it is an interior image (`1 ≤ i ≤ n−2`) whose energy is not
+    exceeded by either neighbour (ties count). -/
+theorem C09_candidates_iff (n : Nat) (e : List α) (h : e.length = n) (i : Nat) :
+    i ∈ candidateIdx n e ↔
+      1 ≤ i ∧ i + 2 ≤ n ∧ ∃ a b c, e[i - 1]? = some a ∧ e[i]? = some b ∧ e[i + 1]? = some c ∧
+        b ≥ a ∧ b ≥ c := by
+  simp only [candidateIdx, List.mem_filter, List.mem_range'_1, Bool.and_eq_true, decide_eq_true_eq]
+  constructor
+  · rintro ⟨⟨hk1, hk2⟩, h1, h2⟩
+    have a1 : i - 1 < e.length := by omega
+    have a2 : i < e.length := by omega
+    have a3 : i + 1 < e.length := by omega
+    refine ⟨by omega, by omega, e[i - 1], e[i], e[i + 1],
+      List.getElem?_eq_getElem a1, List.getElem?_eq_getElem a2, List.getElem?_eq_getElem a3, ?_, ?_⟩
+    · simpa [List.getD_eq_getElem?_getD, List.getElem?_eq_getElem a1, List.getElem?_eq_getElem a2] using h2
+    · simpa [List.getD_eq_getElem?_getD, List.getElem?_eq_getElem a3, List.getElem?_eq_getElem a2] using h1
+  · rintro ⟨h1, h2, a, b, c, ha, hb, hc, hba, hbc⟩
+    refine ⟨⟨by omega, by omega⟩, ?_, ?_⟩
+    · simpa [List.getD_eq_getElem?_getD, hb, hc] using hbc
+    · simpa [List.getD_eq_getElem?_getD, hb, ha] using hba
+
+/-- candidates are returned in ascending order (so without repetition) -/
+theorem C09_candidates_ascending (n : Nat) (e : List α) :
+    (candidateIdx n e).Pairwise (· < ·) := by
+  unfold candidateIdx
+  exact List.Pairwise.filter _ (List.pairwise_lt_range')
+
+/-- the returned positions are the rows of the band at the candidate indices, in order -/
+theorem C09_candidates_positions (n : Nat) (band : List (List α)) (e : List α)
+    (hb : band.length = n) (he : e.length = n) :
+    (findTsCandidates n band e).1 = candidateIdx n e ∧
+    List.Forall₂ (fun i row => band[i]? = some row) (findTsCandidates n band e).1
+      (findTsCandidates n band e).2 := by
+  refine ⟨rfl, ?_⟩
+  simp only [findTsCandidates]
+  rw [List.forall₂_map_right_iff]
+  apply List.forall₂_same.2
+  intro i hi
+  have := ((C09_candidates_iff n e he i).1 hi)
+  have hlt : i < band.length := by omega
+  simp [List.getD_eq_getElem?_getD, List.getElem?_eq_getElem hlt]
+
+/-- Above the code's `|τ|²` cut-off the perpendicular component has no component along `τ`. -/
+theorem C09_nudged_orthogonal (cut : α) (hc : 0 < cut) (v t : List α) (hl : v.length = t.length)
+    (ht : cut ≤ dot t t) : dot (perp cut v t) t = 0 := by
+  have hm : dot t t ≠ 0 := (lt_of_lt_of_le hc ht).ne'
+  simp only [perp, if_neg (not_lt.2 ht)]
+  rw [dot_vsub_left _ _ _ (by simp [hl]), dot_smul_left]
+  field_simp
+  ring
+
+/-- `perp v τ` plus the part it removed is `v`; above the cut-off the removed part is the projection
+    `(v·τ/τ·τ) τ` — with `interior_row`: the non-spring part of an interior gradient row is the
+    true gradient with its along-band component removed.  Below the cut-off (coincident images,
+    zero tangent) the code returns the zero vector. -/
+theorem C09_nudged_decomposition (cut : α) (v t : List α) (hl : v.length = t.length) :
+    vadd (perp cut v t) (removedPart cut v t) = v ∧
+    (cut ≤ dot t t → removedPart cut v t = smul (dot v t / dot t t) t) ∧
+    (dot t t < cut → perp cut v t = zeros v.length) := by
+  refine ⟨?_, fun h => by simp [removedPart, not_lt.2 h], fun h => by simp [perp, h]⟩
+  by_cases h : dot t t < cut
+  · simp only [perp, removedPart, if_pos h]; exact vadd_zeros_left v
+  · simp only [perp, removedPart, if_neg h]; exact vadd_vsub_cancel _ _ (by simp [hl])
+
+/-- every spring row is a scalar multiple of the tangent of its image -/
+theorem C09_spring_parallel (c1 : Int) (ds ks : List α) (tau : List (List α)) (j : Nat)
+    (row : List α) (h : (springRows c1 ds ks tau)[j]? = some row) :
+    ∃ (t : List α) (c : α), tau[j]? = some t ∧ (springCoefs c1 ds ks)[j]? = some c ∧
+      row = vscale t c := by
+  simp only [springRows, List.getElem?_zipWith_eq_some] at h
+  obtain ⟨t, c, ht, hc, rfl⟩ := h
+  exact ⟨t, c, ht, hc, rfl⟩
+
+/-- `sign` takes the values −1, 0, 1 -/
+theorem sign_cases (x : α) : sign x = 1 ∨ sign x = 0 ∨ sign x = -1 := by
+  unfold sign; split_ifs <;> simp
+
+theorem sign_eq_one_iff (x : α) : sign x = 1 ↔ 0 < x := by
+  unfold sign; split_ifs <;> simp_all
+theorem sign_eq_neg_one_iff (x : α) : sign x = -1 ↔ x < 0 := by
+  unfold sign; split_ifs with h1 h2 <;> simp_all
+  exact le_of_lt h1
+theorem sign_eq_zero_iff (x : α) : sign x = 0 ↔ x = 0 := by
+  unfold sign; split_ifs with h1 h2
+  · simp; exact h1.ne'
+  · simp; exact h2.ne
+  · simp; exact le_antisymm (not_lt.1 h1) (not_lt.1 h2)
+
+/-- Which neighbour difference `find_tangent_differences` selects (`pd[i] = xᵢ − xᵢ₊₁`,
+    `pd[i−1] = xᵢ₋₁ − xᵢ`; `s0`, `s1` the signs of the energy changes before/after image `i`):
+    rising → `pd[i]`; falling → `pd[i−1]`; flat → `pd[i−1]`; strict extremum → the
+    `v_max`/`v_min`-weighted sum, the larger weight on `pd[i]` iff `e[i+1] ≥ e[i−1]`; and the three
+    tests of the if/elif chain are exhaustive (the all-zero initial row is never left in place). -/
+theorem C09_tangent_upwind (d : Nat) (pd : List (List α)) (ed e : List α) (i : Nat) :
+    let s0 := sign (ed.getD (i - 1) 0)
+    let s1 := sign (ed.getD i 0)
+    (s0 + s1 ≥ 1 → rawTangent d pd ed e i = pd.getD i []) ∧
+    (s0 + s1 ≤ -1 → rawTangent d pd ed e i = pd.getD (i - 1) []) ∧
+    (s0 = 0 → s1 = 0 → rawTangent d pd ed e i = pd.getD (i - 1) []) ∧
+    (s0 + s1 = 0 → s0 ≠ 0 → e.getD (i + 1) 0 ≥ e.getD (i - 1) 0 →
+      rawTangent d pd ed e i =
+        vadd (vscale (pd.getD i []) (maxv (absv (ed.getD (i - 1) 0)) (absv (ed.getD i 0))))
+             (vscale (pd.getD (i - 1) []) (minv (absv (ed.getD (i - 1) 0)) (absv (ed.getD i 0))))) ∧
+    (s0 + s1 = 0 → s0 ≠ 0 → e.getD (i + 1) 0 < e.getD (i - 1) 0 →
+      rawTangent d pd ed e i =
+        vadd (vscale (pd.getD i []) (minv (absv (ed.getD (i - 1) 0)) (absv (ed.getD i 0))))
+             (vscale (pd.getD (i - 1) []) (maxv (absv (ed.getD (i - 1) 0)) (absv (ed.getD i 0))))) ∧
+    (s0 + s1 ≥ 1 ∨ s0 + s1 ≤ -1 ∨ s0 + s1 = 0) := by
+  intro s0 s1
+  have c0 := sign_cases (ed.getD (i - 1) 0)
+  have c1 := sign_cases (ed.getD i 0)
+  refine ⟨?_, ?_, ?_, ?_, ?_, ?_⟩
+  · intro h; simp only [rawTangent]; rw [if_pos h]
+  · intro h; simp only [rawTangent]; rw [if_neg (by omega), if_pos h]
+  · intro h0 h1
+    simp only [rawTangent]
+    rw [if_neg (by omega), if_neg (by omega), if_pos (by omega), if_pos (Or.inl h0)]
+  · intro h hs hge
+    simp only [rawTangent]
+    rw [if_neg (by omega), if_neg (by omega), if_pos h, if_neg (by omega), if_pos hge]
+  · intro h hs hlt
+    simp only [rawTangent]
+    rw [if_neg (by omega), if_neg (by omega), if_pos h, if_neg (by omega), if_neg (not_le.2 hlt)]
+  · omega
+
+/-- After normalisation a tangent is the zero vector (exactly when the selected difference is
+    zero) or a unit vector. -/
+theorem C09_tangent_unit_or_zero (sqrt : α → α)
+    (hs : ∀ x, 0 ≤ x → 0 ≤ sqrt x ∧ sqrt x * sqrt x = x) (v : List α) :
+    (normalise sqrt v = zeros v.length ∧ dot v v = 0) ∨
+    (dot (normalise sqrt v) (normalise sqrt v) = 1 ∧
+      normalise sqrt v = vdiv v (sqrt (dot v v)) ∧ 0 < sqrt (dot v v)) := by
+  obtain ⟨h0, h1⟩ := hs _ (dot_self_nonneg v)
+  by_cases hr : sqrt (dot v v) = 0
+  · left
+    refine ⟨by simp [normalise, norm, hr], ?_⟩
+    rw [← h1, hr]; simp
+  · right
+    refine ⟨?_, by simp [normalise, norm, hr], lt_of_le_of_ne h0 (Ne.symm hr)⟩
+    have hn : normalise sqrt v = vdiv v (sqrt (dot v v)) := by simp [normalise, norm, hr]
+    rw [hn, dot_vdiv, h1]
+    have : dot v v ≠ 0 := by rw [← h1]; exact mul_ne_zero hr hr
+    exact div_self this
+
+def SameConfig (o o' : Obj α) : Prop :=
+  o.forceConstant = o'.forceConstant ∧ o.maxImages = o'.maxImages ∧
+  o.originalDensity = o'.originalDensity
+
+def Clean (o : Obj α) : Prop := o.imageDensity = o.originalDensity
+
+section residue
+variable (trunc : α → Int) (sqrt : α → α) (pot : List α → α)
+  (opt : Nat → List α → List (α × α) → List (List α) → List (List α))
+
+/-- what `initial_interpolation` computes, in closed form -/
+theorem initialInterpolation_eq (o : Obj α) (x1 x2 : List α) (box : List (α × α)) (a : Int) :
+    o.initialInterpolation trunc sqrt x1 x2 box a =
+      (let densEff := if a > 0 then retryDensity o.originalDensity a else o.imageDensity
+       let n := imageCount trunc o.maxImages densEff (norm sqrt (vsub x1 x2))
+       ({ o with imageDensity := if a > 0 then o.originalDensity else o.imageDensity,
+                 nImages := some n, bandBounds := some (repeatBox box n),
+                 forceConstants := some (forceConstantsOf o.forceConstant n) },
+        linInterp x1 x2 n)) := by
+  by_cases h : a > 0 <;>
+    simp [Obj.initialInterpolation, Obj.linearInterpolation, Obj.updateDensity, Obj.revertDensity,
+      retryGuard, h]
+
+/-- After `initial_interpolation` / `run` with `attempts > 0` the image density is the original one;
+    with `attempts ≤ 0` it is untouched (so `image_density = original` is an invariant); the
+    configuration is never changed; `neb_count` counts the runs. -/
+theorem C09_no_residue_density (o : Obj α) (x1 x2 : List α) (box : List (α × α)) (a : Int) :
+    let o' := (o.initialInterpolation trunc sqrt x1 x2 box a).1
+    let o'' := (o.run trunc sqrt pot opt x1 x2 box a).1
+    (0 < a → Clean o' ∧ Clean o'') ∧ (Clean o → Clean o' ∧ Clean o'') ∧
+    SameConfig o o' ∧ SameConfig o o'' ∧ o''.nebCount = o.nebCount + 1 := by
+  simp only [Obj.run, initialInterpolation_eq, Obj.finish, Clean, SameConfig]
+  by_cases h : a > 0 <;> simp [h]
+
+/-- Two objects with equal configuration (and the invariant `image_density = original`) give the
+    same band and the same `run` output for the same arguments, whatever their cached
+    `n_images`, `band_bounds`, `force_constants`, `neb_count` are; the invariant is kept. -/
+theorem C09_no_residue_outputs (o o' : Obj α) (hc : SameConfig o o') (h : Clean o) (h' : Clean o')
+    (x1 x2 : List α) (box : List (α × α)) (a : Int) :
+    (o.initialInterpolation trunc sqrt x1 x2 box a).2 =
+      (o'.initialInterpolation trunc sqrt x1 x2 box a).2 ∧
+    (o.run trunc sqrt pot opt x1 x2 box a).2 = (o'.run trunc sqrt pot opt x1 x2 box a).2 ∧
+    SameConfig (o.run trunc sqrt pot opt x1 x2 box a).1 (o'.run trunc sqrt pot opt x1 x2 box a).1 ∧
+    Clean (o.run trunc sqrt pot opt x1 x2 box a).1 ∧
+    Clean (o'.run trunc sqrt pot opt x1 x2 box a).1 := by
+  obtain ⟨c1, c2, c3⟩ := hc
+  simp only [Clean] at h h'
+  simp only [Obj.run, initialInterpolation_eq, Obj.finish, Clean, SameConfig, h, h', c1, c2, c3]
+  by_cases ha : a > 0 <;> simp [ha]
+
+/-- After any history of searches on one object (any arguments, any retry counts) every search
+    returns what a fresh object would return. -/
+theorem C09_no_residue_history (k dens : α) (mx : Int) (o : Obj α)
+    (hc : SameConfig o (Obj.fresh k dens mx)) (h : Clean o)
+    (hist : List (List α × List α × List (α × α) × Int)) :
+    (Obj.runs trunc sqrt pot opt o hist).2 =
+      hist.map (fun c => ((Obj.fresh k dens mx).run trunc sqrt pot opt c.1 c.2.1 c.2.2.1 c.2.2.2).2) ∧
+    SameConfig (Obj.runs trunc sqrt pot opt o hist).1 (Obj.fresh k dens mx) ∧
+    Clean (Obj.runs trunc sqrt pot opt o hist).1 := by
+  induction hist generalizing o with
+  | nil => exact ⟨rfl, hc, h⟩
+  | cons c rest ih =>
+    obtain ⟨x1, x2, box, a⟩ := c
+    have hf : Clean (Obj.fresh k dens mx) := rfl
+    obtain ⟨_, e2, e3, e4, e5⟩ := C09_no_residue_outputs trunc sqrt pot opt o _ hc h hf x1 x2 box a
+    have hd := C09_no_residue_density trunc sqrt pot opt (Obj.fresh k dens mx) x1 x2 box a
+    have hc' : SameConfig (o.run trunc sqrt pot opt x1 x2 box a).1 (Obj.fresh k dens mx) := by
+      obtain ⟨a1, a2, a3⟩ := e3
+      obtain ⟨b1, b2, b3⟩ := hd.2.2.2.1
+      exact ⟨a1.trans b1.symm, a2.trans b2.symm, a3.trans b3.symm⟩
+    obtain ⟨i1, i2, i3⟩ := ih _ hc' e4
+    simp only [Obj.runs, List.map_cons]
+    exact ⟨by rw [i1, e2], i2, i3⟩
+
+/-- On the object: after `initial_interpolation` `n_images` is set to a value in `[10, max_images]`,
+    the band has that many rows, `band_bounds` is the box repeated per image and
+    `force_constants` has `n−1` entries equal to the configured constant. -/
+theorem C09_image_count_object (o : Obj α) (x1 x2 : List α) (box : List (α × α)) (a : Int)
+    (h : 10 ≤ o.maxImages) :
+    ∃ n : Nat, (o.initialInterpolation trunc sqrt x1 x2 box a).1.nImages = some n ∧
+      10 ≤ n ∧ (n : Int) ≤ o.maxImages ∧
+      (o.initialInterpolation trunc sqrt x1 x2 box a).2.length = n ∧
+      (o.initialInterpolation trunc sqrt x1 x2 box a).1.bandBounds = some (repeatBox box n) ∧
+      (repeatBox box n).length = n * box.length ∧
+      (o.initialInterpolation trunc sqrt x1 x2 box a).1.forceConstants =
+        some (List.replicate (n - 1) o.forceConstant) := by
+  rw [initialInterpolation_eq]
+  refine ⟨_, rfl, ?_, ?_, by simp [linInterp], rfl, by simp [repeatBox], rfl⟩
+  · simp only [imageCount, clamp]; split_ifs <;> omega
+  · simp only [imageCount, clamp]; split_ifs <;> omega
+
+end residue
+
+theorem vneg_vscale (t : List α) (c : α) : vneg (vscale t c) = vscale t (-c) := by
+  simp [vneg, vscale, List.map_map, Function.comp_def]
+
+/-- PARTIAL (full statement: `C09_spring_restoring` — the spring force `−g_∥` has positive component
+    towards the farther neighbour; false for the coded literal, see below).  For interior image
+    `j+1` with spacings `dp` (to the previous image) and `dn` (to the next), spring constant `k` and
+    tangent `t`: the spring row is `t` times the coefficient `σ·(dn − dp)·k`, `σ` the sign literal
+    read from the source; its magnitude is `k·|dp − dn|`. -/
+theorem C09_spring_restoring_partial (c1 : Int) (ds ks : List α) (tau : List (List α)) (j : Nat)
+    (dp dn k : α) (t : List α) (h0 : ds[j]? = some dp) (h1 : ds[j + 1]? = some dn)
+    (hk : ks[j]? = some k) (hk' : j + 1 < ks.length) (ht : tau[j]? = some t) :
+    (springRows c1 ds ks tau)[j]? = some (vscale t (sgn c1 (dn - dp) * k)) ∧
+    (c1 < 0 → sgn c1 (dn - dp) * k = (dp - dn) * k) ∧
+    (¬ c1 < 0 → sgn c1 (dn - dp) * k = (dn - dp) * k) ∧
+    (0 ≤ k → |sgn c1 (dn - dp) * k| = k * |dp - dn|) := by
+  refine ⟨?_, ?_, ?_, ?_⟩
+  · simp only [springRows, springCoefs, ediffs, List.getElem?_zipWith_eq_some]
+    refine ⟨t, _, ht, ⟨dn - dp, k, ⟨dp, dn, h0, ?_, rfl⟩, ?_, rfl⟩, rfl⟩
+    · simpa using h1
+    · rw [List.getElem?_dropLast]; simp [hk, show j < ks.length - 1 by omega]
+  · intro h; simp only [sgn, if_pos h]; ring
+  · intro h; simp only [sgn, if_neg h]
+  · intro hk0
+    by_cases h : c1 < 0
+    · simp only [sgn, if_pos h]
+      rw [abs_mul, abs_of_nonneg hk0, abs_neg, abs_sub_comm, mul_comm]
+    · simp only [sgn, if_neg h]
+      rw [abs_mul, abs_of_nonneg hk0, abs_sub_comm, mul_comm]
+
+/-- The sign of the spring force, for all inputs.  `t` is the tangent of the image: by
+    `C09_tangent_upwind` it is built from the differences `xᵢ − xᵢ₊₁`, `xᵢ₋₁ − xᵢ`, i.e. it points
+    from the *next* image towards the *previous* one.  With the repaired literal (`c1 = 1`) the force
+    `−g_∥` is `c·t` with `c > 0` when the previous image is the farther one (`dn < dp`: pulled back),
+    `c < 0` when the next one is farther (pulled forward), `c = 0` at equal spacing: it pulls
+    towards equal spacing. -/
+theorem C09_spring_restoring_of_repaired_sign (ds ks : List α) (tau : List (List α)) (j : Nat)
+    (dp dn k : α) (t : List α) (h0 : ds[j]? = some dp) (h1 : ds[j + 1]? = some dn)
+    (hk : ks[j]? = some k) (hk' : j + 1 < ks.length) (ht : tau[j]? = some t) (hk0 : 0 < k) :
+    ∃ c : α, ((springRows 1 ds ks tau)[j]?).map vneg = some (vscale t c) ∧
+      (dn < dp → 0 < c) ∧ (dp < dn → c < 0) ∧ (dp = dn → c = 0) := by
+  obtain ⟨e, _, e2, _⟩ := C09_spring_restoring_partial 1 ds ks tau j dp dn k t h0 h1 hk hk' ht
+  refine ⟨-((dn - dp) * k), ?_, ?_, ?_, ?_⟩
+  · rw [e, e2 (by decide)]; simp [vneg_vscale]
+  · intro h; nlinarith
+  · intro h; nlinarith
+  · intro h; rw [h]; simp
+
+/-- The same for the literal of the code as written (`c1 = −1`): every sign is the opposite one —
+    the force pushes the image *away* from its farther neighbour, for every band, spacing and
+    positive force constant (the known finding, DESIGN.md §6 row 12). -/
+theorem C09_spring_sign_as_coded (ds ks : List α) (tau : List (List α)) (j : Nat)
+    (dp dn k : α) (t : List α) (h0 : ds[j]? = some dp) (h1 : ds[j + 1]? = some dn)
+    (hk : ks[j]? = some k) (hk' : j + 1 < ks.length) (ht : tau[j]? = some t) (hk0 : 0 < k) :
+    ∃ c : α, ((springRows (-1) ds ks tau)[j]?).map vneg = some (vscale t c) ∧
+      (dn < dp → c < 0) ∧ (dp < dn → 0 < c) ∧ (dp = dn → c = 0) := by
+  obtain ⟨e, e1, _, _⟩ := C09_spring_restoring_partial (-1) ds ks tau j dp dn k t h0 h1 hk hk' ht
+  refine ⟨-((dp - dn) * k), ?_, ?_, ?_, ?_⟩
+  · rw [e, e1 (by decide)]; simp [vneg_vscale]
+  · intro h; nlinarith
+  · intro h; nlinarith
+  · intro h; rw [h]; simp
+
+/-- The property's spring clause (`C09_spring_restoring`) at interior image `i`, as a predicate on a
+    band and a gradient whose row `i` is the spring term: the force `−g` has a positive component
+    towards the farther of the two neighbours. -/
+def SpringRestoringAt (sqrt : α → α) (band g : List (List α)) (i : Nat) : Prop :=
+  let x := band.getD i []
+  let xp := band.getD (i - 1) []
+  let xn := band.getD (i + 1) []
+  let dp := norm sqrt (vsub x xp)
+  let dn := norm sqrt (vsub xn x)
+  (dp < dn → 0 < dot (vneg (g.getD i [])) (vsub xn x)) ∧
+  (dn < dp → 0 < dot (vneg (g.getD i [])) (vsub xp x))
+
+theorem sqrt_sq (sqrt : α → α) (hs : ∀ x, 0 ≤ x → 0 ≤ sqrt x ∧ sqrt x * sqrt x = x) (r : α)
+    (hr : 0 ≤ r) : sqrt (r * r) = r := by
+  obtain ⟨h0, h1⟩ := hs (r * r) (mul_self_nonneg r)
+  exact (mul_self_inj_of_nonneg h0 hr).1 h1
+
+/-- The correct clause is FALSE for the model as coded (`c1 = −1`): flat surface, 1-D band
+    `0, 1, 3/2, 3`, `k = 1` — gradient rows `(0, −1/2, 1, 0)` (what the real code returns), and at
+    both interior images the spring force has a *negative* component towards the farther neighbour.
+    For every ordered field and every `sqrt` meeting its contract. -/
+theorem C09_spring_not_restoring_as_coded (sqrt : α → α) (cut : α)
+    (hs : ∀ x, 0 ≤ x → 0 ≤ sqrt x ∧ sqrt x * sqrt x = x) :
+    let band : List (List α) := [[0], [1], [3 / 2], [3]]
+    let fg : List (α × List α) := [(0, [0]), (0, [0]), (0, [0]), (0, [0])]
+    let g := (bandGradient (-1) sqrt cut 4 [1, 1, 1] band fg).2
+    g = [[0], [-1 / 2], [1], [0]] ∧ ¬ SpringRestoringAt sqrt band g 1 ∧
+      ¬ SpringRestoringAt sqrt band g 2 := by
+  have s1 : sqrt 1 = 1 := by simpa using sqrt_sq sqrt hs 1 (by norm_num)
+  have s2 : sqrt (1 / 4) = 1 / 2 := by
+    have := sqrt_sq sqrt hs (1 / 2) (by norm_num); norm_num at this ⊢; exact this
+  have s3 : sqrt (9 / 4) = 3 / 2 := by
+    have := sqrt_sq sqrt hs (3 / 2) (by norm_num); norm_num at this ⊢; exact this
+  intro band fg g
+  have r1 : List.range' 1 (4 - 2) = [1, 2] := rfl
+  have r2 : List.range 4 = [0, 1, 2, 3] := rfl
+  have hg : g = [[0], [-1 / 2], [1], [0]] := by
+    simp only [g, band, fg, bandGradient, tangents, distances, posDiffs, ediffs, rawTangent, normalise,
+      norm, springRows, springCoefs, zeroEnds, perp, sign, sgn, vadd, vsub, vneg, vscale, vdiv, smul,
+      dot, zeros, absv, maxv, minv, r1, r2, List.map_cons, List.map_nil]
+    norm_num [s1, s2, s3]
+    norm_num [vscale, norm, dot, s1, s2, s3]
+  refine ⟨hg, ?_, ?_⟩
+  · rw [hg]
+    simp only [SpringRestoringAt, band]
+    norm_num [norm, dot, vsub, vneg, s1, s2, s3]
+  · rw [hg]
+    simp only [SpringRestoringAt, band]
+    norm_num [norm, dot, vsub, vneg, s1, s2, s3]
+
+/-! ### non-vacuity: concrete instances -/
+
+example : clamp 50 37 = 37 ∧ clamp 15 1703 = 15 ∧ clamp 15 3 = 10 ∧ clamp 10 10 = 10 := by decide
+
+/-- 5 images, energies 0 1 1 0 0: images 1 and 2 (a tie) are candidates, 3 is not -/
+example : candidateIdx 5 ([0, 1, 1, 0, 0] : List ℚ) = [1, 2] := by
+  norm_num [candidateIdx, List.range', List.filter]
+
+/-- `perp` on a unit tangent: the component along it is removed -/
+example : perp (1 / 10 ^ 13 : ℚ) [1, 2] [0, 1] = [1, 0] := by
+  norm_num [perp, dot, vsub, smul]
+
+/-- a retry on an object that carries stale caches: density restored, 10 ≤ n ≤ max -/
+example (trunc : ℚ → Int) (sqrt : ℚ → ℚ) :
+    let o : Obj ℚ := { Obj.fresh 1 2 15 with nImages := some 3, nebCount := 7 }
+    Clean o ∧ SameConfig o (Obj.fresh 1 2 15) ∧
+    Clean (o.initialInterpolation trunc sqrt [0, 0] [3, 4] [(-5, 5), (-5, 5)] 2).1 := by
+  refine ⟨rfl, ⟨rfl, rfl, rfl⟩, ?_⟩
+  exact ((C09_no_residue_density trunc sqrt (fun _ => 0) (fun _ _ _ b => b) _ _ _ _ 2).1 (by decide)).1
 
 end TopSearch.Props.C09
